@@ -16,6 +16,8 @@ OK = 'Reached end. All ok!'
 
 def fault(eng, label):
     """every external step may fail: nondeterministic exception at this call"""
+    if eng.ghost.get('no_faults'):       # units of other properties that reuse these stubs without failure injection
+        return
     b = fresh(BOOL, 'fails_' + label)
     if eng.branch(b.z):
         eng.ghost.setdefault('faults', []).append(label)
